@@ -89,8 +89,9 @@ theorem verifies_on_receive : VERIFY_CHECKSUM_ON_RECEIVE = true := by decide
 /-- **echo_exactly_one_same_id_seq_data** + **echo_reversed_path_swapped_addrs**: a well-formed echo request (SCMP next
     header, echo-request layout, verifying checksum) whose path reverses and whose host addresses are of a known kind is
     answered by the handler with a packet that parses as an echo **reply** with the same identifier, sequence number and
-    data, source and destination swapped, over the reversed path; the socket loop sends exactly this one packet (and
-    nothing else, and reports nothing) provided the reply header is encodable. -/
+    data, source and destination swapped, over the reversed path; the loop of a socket **on which `DefaultEchoHandler` is
+    installed** next to the error handler (no `ScionStack` constructor does that, see `stack_socket_sends_nothing`) sends
+    exactly this one packet (and nothing else, and reports nothing) provided the reply header is encodable. -/
 theorem echo_exactly_one_same_id_seq_data (rev : Rev) (n : Nat) (p : Pkt) (code c1 c2 : UInt8) (ident seq : Nat) (data : Bytes)
     (pt : Nat) (path : Bytes)
     (hnh : p.nextHdr = PROTO_SCMP) (hpl : p.payload = echoWire TYPE_EchoRequest code c1 c2 ident seq data)
@@ -127,20 +128,24 @@ theorem echo_reply_checksum_valid (ident seq : Nat) (data : Bytes) (a : AddrHdr)
 
 /-! ## no error loops -/
 
-/-- a socket sends an SCMP message only in answer to an echo request whose checksum verifies -/
-theorem reply_only_to_valid_echo_request (rev : Rev) (n : Nat) (hs : List Handler) (p : Pkt) (h : (recvOne rev n hs p).sent ≠ []) :
+/-- a socket that carries any list of the two handlers the crate ships (`hb`; a user implementation of the public trait
+    `ScmpHandler` is a different matter, see `custom_handler_may_reply_witness`) sends an SCMP message only in answer to
+    an echo request whose checksum verifies -/
+theorem reply_only_to_valid_echo_request (rev : Rev) (n : Nat) (hs : List Handler) (p : Pkt) (hb : ∀ x ∈ hs, x.builtin = true)
+    (h : (recvOne rev n hs p).sent ≠ []) :
     p.nextHdr = PROTO_SCMP ∧ scmpChecksumOk p = true ∧ ∃ i s d, asScmp p = some (.echoRequest i s d) := by
-  obtain ⟨h1, i, s, d, h2, h3⟩ := recvOne_sent rev n hs p h
+  obtain ⟨h1, i, s, d, h2, h3⟩ := recvOne_sent rev n hs p hb h
   exact ⟨h1, h3 verifies_on_receive, i, s, d, h2⟩
 
 /-- **no_reply_to_error**: an SCMP message of type < 128 (known kind or not, well-formed or not) never triggers a reply,
-    whatever handlers are installed -/
-theorem no_reply_to_error (rev : Rev) (n : Nat) (hs : List Handler) (p : Pkt) (hty : byteAt p.payload 0 < 128) :
+    whichever of the crate's own handlers are installed, in any number and order -/
+theorem no_reply_to_error (rev : Rev) (n : Nat) (hs : List Handler) (p : Pkt) (hb : ∀ x ∈ hs, x.builtin = true)
+    (hty : byteAt p.payload 0 < 128) :
     (recvOne rev n hs p).sent = [] := by
   cases hsent : (recvOne rev n hs p).sent with
   | nil => rfl
   | cons x t =>
-    obtain ⟨h1, _, i, s, d, h2⟩ := reply_only_to_valid_echo_request rev n hs p (by rw [hsent]; simp)
+    obtain ⟨h1, _, i, s, d, h2⟩ := reply_only_to_valid_echo_request rev n hs p hb (by rw [hsent]; simp)
     unfold asScmp at h2
     rw [if_neg (by simp [h1])] at h2
     have := parseMsg_ty _ _ h2
@@ -149,15 +154,89 @@ theorem no_reply_to_error (rev : Rev) (n : Nat) (hs : List Handler) (p : Pkt) (h
 
 /-- **no_reply_to_malformed**: a packet that is not a well-sized SCMP message (too short for its kind, or not SCMP at all)
     or whose SCMP checksum does not verify never triggers a reply -/
-theorem no_reply_to_malformed (rev : Rev) (n : Nat) (hs : List Handler) (p : Pkt)
+theorem no_reply_to_malformed (rev : Rev) (n : Nat) (hs : List Handler) (p : Pkt) (hb : ∀ x ∈ hs, x.builtin = true)
     (h : asScmp p = none ∨ scmpChecksumOk p = false) : (recvOne rev n hs p).sent = [] := by
   cases hsent : (recvOne rev n hs p).sent with
   | nil => rfl
   | cons x t =>
-    obtain ⟨_, hc, i, s, d, h2⟩ := reply_only_to_valid_echo_request rev n hs p (by rw [hsent]; simp)
+    obtain ⟨_, hc, i, s, d, h2⟩ := reply_only_to_valid_echo_request rev n hs p hb (by rw [hsent]; simp)
     rcases h with h | h
     · rw [h] at h2; cases h2
     · rw [h] at hc; cases hc
+
+/-- the hypothesis `hb` is needed: the handler list is `Vec<Box<dyn ScmpHandler>>` over a public trait, and a handler
+    that answers everything makes the loop send a reply to an SCMP error (the loop itself checks nothing) -/
+theorem custom_handler_may_reply_witness :
+    ∃ (f : Pkt → Option RawPkt) (p : Pkt), byteAt p.payload 0 < 128 ∧ p.nextHdr = PROTO_SCMP ∧
+      (recvOne (fun _ _ => none) 0 [.custom f] p).sent ≠ [] := by
+  refine ⟨fun p => some { nextHdr := PROTO_SCMP, addr := p.addr.swap, pathType := 0, path := [], payload := [] },
+    { tc := 0, flow := 0, nextHdr := PROTO_SCMP,
+      addr := { dstIa := 1, srcIa := 2, dstNib := 0, srcNib := 0, dstHost := [10, 0, 0, 1], srcHost := [10, 0, 0, 2] },
+      pathType := 0, path := [], payload := [1, 0, 0, 0, 0, 0, 0, 0] }, by decide, rfl, by decide⟩
+
+/-! ### the sockets `ScionStack` builds (handler lists read off stack.rs: `STACK_SOCKET_HANDLERS`) -/
+
+/-- every production constructor installs handlers of the crate only, so the three theorems above apply to every
+    socket a `ScionStack` hands out (generic in the table: holds for any wiring made of the two known handler types) -/
+theorem stack_sockets_builtin (f : String) (hs : List Handler) (h : stackHandlers f = some hs) : ∀ x ∈ hs, x.builtin = true := by
+  unfold stackHandlers at h
+  split at h
+  · exact handlersOfCodes_builtin _ _ h
+  · cases h
+
+theorem stack_socket_no_reply_to_error (rev : Rev) (n : Nat) (f : String) (hs : List Handler) (h : stackHandlers f = some hs)
+    (p : Pkt) (hbad : byteAt p.payload 0 < 128 ∨ asScmp p = none ∨ scmpChecksumOk p = false) :
+    (recvOne rev n hs p).sent = [] := by
+  rcases hbad with hty | hm
+  · exact no_reply_to_error rev n hs p (stack_sockets_builtin f hs h) hty
+  · exact no_reply_to_malformed rev n hs p (stack_sockets_builtin f hs h) hm
+
+/-- with the wiring stack.rs has **today** (only `ScmpErrorHandler`s, checked on the generated table by `decide`) a
+    socket handed out by `ScionStack` never sends an SCMP packet at all – in particular it does **not** answer echo
+    requests: `DefaultEchoHandler` is exported but installed by no constructor (its documentation reserves it for a
+    socket bound to the end-host SCMP port 30041).  The echo clause of the property is therefore a statement about the
+    handler (`echo_exactly_one_same_id_seq_data`, a socket assembled with it) and about pocketscion (`sim_echo_reply`),
+    not about the sockets the SDK builds. -/
+theorem stack_socket_sends_nothing (rev : Rev) (n : Nat) (f : String) (hs : List Handler) (h : stackHandlers f = some hs) (p : Pkt) :
+    (recvOne rev n hs p).sent = [] := by
+  have hall : ∀ e ∈ STACK_SOCKET_HANDLERS, ∀ c ∈ e.2, c = 0 := by decide
+  unfold stackHandlers at h
+  split at h
+  · rename_i cs hl
+    exact recvOne_all_error_sent rev n hs p (handlersOfCodes_all_error cs hs (hall (f, cs) (lookup_mem _ _ _ hl)) h)
+  · cases h
+
+theorem stack_bind_handlers : stackHandlers "bind_with_config" = some [.error] := by rfl
+theorem stack_path_unaware_handlers : stackHandlers "bind_path_unaware" = some [] := by rfl
+
+/-- **errors reach the receivers** on the sockets of `bind` / `bind_with_config` / `connect*`: stated for whatever list the
+    generated table gives, discharged through `stack_bind_handlers` -/
+theorem stack_bind_errors_reach_receivers (rev : Rev) (n : Nat) (hs : List Handler) (hw : stackHandlers "bind_with_config" = some hs)
+    (p : Pkt) (k : ErrKind) (q : Bytes) (h : asScmp p = some (.error k q)) :
+    (recvOne rev n hs p).reports = (List.range n).map (fun i => (i, ({ kind := k, quote := q, pathType := p.pathType, path := p.path } : Report))) := by
+  rw [stack_bind_handlers] at hw
+  cases hw
+  have hn : p.nextHdr = PROTO_SCMP := by
+    unfold asScmp at h
+    by_cases hh : p.nextHdr = PROTO_SCMP
+    · exact hh
+    · simp [hh] at h
+  have hne : PROTO_SCMP ≠ PROTO_UDP := by decide
+  simp [recvOne, hn, hne, runHandler, errorHandle, h]
+
+/-- a socket of `bind_path_unaware` has no handler: an SCMP error arriving on it is reported to **no** receiver (and
+    nothing is sent).  Not a violation of the property as read here (no receiver is associated with such a socket – the
+    stack's receiver list holds the path managers of the managed sockets), but it means an application using explicit
+    paths never learns of SCMP errors. -/
+theorem stack_path_unaware_reports_nothing (rev : Rev) (n : Nat) (hs : List Handler) (hw : stackHandlers "bind_path_unaware" = some hs)
+    (p : Pkt) : (recvOne rev n hs p).reports = [] ∧ (recvOne rev n hs p).sent = [] := by
+  rw [stack_path_unaware_handlers] at hw
+  cases hw
+  unfold recvOne
+  by_cases h1 : p.nextHdr = PROTO_UDP
+  · simp [h1]
+  · have hne : PROTO_SCMP ≠ PROTO_UDP := by decide
+    by_cases h2 : p.nextHdr = PROTO_SCMP <;> simp [h1, h2, hne]
 
 theorem no_reply_unknown : NO_REPLY_TO_UNKNOWN_ERROR = true := by decide
 
@@ -314,6 +393,8 @@ example : ((recvOne (fun t p => some (t, p)) 2 [.error, .echo] echoReqPkt).sent)
 /-- at the largest header the quote of a 300-byte offending packet is cut to 184 bytes: 1020 + 28 + 184 = 1232 -/
 example (off : Bytes) (h : off.length = 300) : 1020 + (encodeError (.intConnDown 5 1 2) off echoReqPkt.addr 1020).length = 1232 := by
   simp [encodeError, errorMsg_length, quoteLen, ErrKind.rest, be64_length, SCMP_ERROR_MAX_PACKET_SIZE, h]
+example : ∃ hs, stackHandlers "bind_with_config" = some hs ∧ hs ≠ [] := ⟨_, stack_bind_handlers, by simp⟩
+example : ∀ x ∈ [Handler.error, Handler.echo, Handler.echo], x.builtin = true := by simp [Handler.builtin]
 example : AddrHdr.hostsOk echoReqPkt.addr := ⟨by decide, by decide, by decide, by decide⟩
 example : (asScmp { echoReqPkt with payload := encodeError (.destUnreachable 4) [1, 2, 3] echoReqPkt.addr 36 }).map Msg.isKnownError = some true := by
   decide
